@@ -202,10 +202,11 @@ def split_trace(tp, parts):
 JUDGE_CFG = "SPECIFICATION Spec\nCHECK_DEADLOCK FALSE\n"
 
 
-def judge(module, trace, name, parallel=None, extra_env=None):
+def judge(module, trace, name, parallel=None, extra_env=None, parts=None):
     """run the TLC trace judge on the trace (split over processes); returns merged verdict dict"""
-    nlines = sum(1 for _ in open(trace))
-    parts = split_trace(trace, parallel or max(1, min(NCPU, 8, nlines // 30000 + 1)))
+    if parts is None:
+        nlines = sum(1 for _ in open(trace))
+        parts = split_trace(trace, parallel or max(1, min(NCPU, 8, nlines // 30000 + 1)))
     procs = []
     for i, p in enumerate(parts):
         outp = p + ".judge.txt"
